@@ -20,6 +20,10 @@ RULE = ("per scenario (version x key-exchange family, HRR, PSK, resumption) "
         "complete => identical views (secrets, exporter, parameters) and the "
         "baseline's parameters; sentinel-bearing ServerHello => client's next "
         "record is an alert; SCSV => inappropriate_fallback. "
+        "Directed additions: every (client maximum, forced version) "
+        "downgrade, with the sentinel written by a capable server after "
+        "a ClientHello rewrite or spliced into an honest older server's "
+        "hello; SCSV together with an offered session.   "
         "distinct_nontrivial = distinct (scenario, mutation class, outcome).")
 ASSUMPTIONS = [
     "a removed second line of defence that Finished still covers is "
